@@ -1063,10 +1063,12 @@ class AnyEtreeNodeProperty(_ElementBase):
                 raise ValueError(f'mandatory value {self._sub_element_name} missing')  # noqa: EM102
         else:
             sub_node = self._get_element_by_child_name(node, self._sub_element_name, create_missing_nodes=True)
+            # append copies (like ExtensionNodeProperty does): lxml moves an element that already has a parent, i.e. writing
+            # the value would take the elements out of the document they were read from or written to before
             if isinstance(py_value, etree._Element):  # noqa: SLF001
-                sub_node.append(py_value)
+                sub_node.append(xml_utils.copy_node_wo_parent(py_value))
             else:
-                sub_node.extend(py_value)
+                sub_node.extend([xml_utils.copy_node_wo_parent(x) for x in py_value])
 
 
 class SubElementProperty(_ElementBase):
@@ -1452,7 +1454,8 @@ class AnyEtreeNodeListProperty(_ElementListProperty):
             return
 
         sub_node = self._get_element_by_child_name(node, self._sub_element_name, create_missing_nodes=True)
-        sub_node.extend(py_value)
+        # copies, see AnyEtreeNodeProperty
+        sub_node.extend([xml_utils.copy_node_wo_parent(x) for x in py_value])
 
     def __str__(self) -> str:
         return f'{self.__class__.__name__} in sub-element {self._sub_element_name}'
